@@ -503,7 +503,7 @@ static void run_script(const std::vector<std::string> &lines) {
             }
             mark_new_vertices(w, std::min(old_nv, (int)w.mesh.n_vertices()));   // take_snap reads vertex positions: keep them defined
             dump_state(w, o);
-            if (g_oracle) (void)valid_for_c01(take_snap(w));                    // records a history that leaves the contract
+            if (g_oracle && !r.rejected && !r.echo.empty()) note_history(take_snap(w), split_ws(r.echo)[0]);   // records a history that leaves the contract
         }
         std::string s = o.str();
         fwrite(s.data(), 1, s.size(), stdout);
